@@ -36,6 +36,7 @@ theorem allStep_ne_tv {a b : Raw} (ha : a ≠ .raisedTV) (hb : b ≠ .raisedTV) 
 
 theorem isSubtypeCls_ne_tv (env : Env) (c : ClsId) (a : Ann) : isSubtypeCls env c a ≠ .raisedTV := by
   cases a <;> simp [isSubtypeCls]
+  all_goals (split <;> simp)
 
 theorem unionNode_cases (sp : USpell) (n : Nat) (m : Raw) :
     unionNode sp n m = .raisedPed ∨ unionNode sp n m = .raisedOther ∨ unionNode sp n m = m := by
